@@ -82,6 +82,9 @@ type vHnswSys struct {
 	maxRes         int
 	maxEver        int // maximum number of stored vectors at any time in the history
 	everFlushedBig bool
+	// vertices whose layer-0 list was emptied BY a Flush (every neighbour was physically
+	// deleted; Flush does not reconnect): witness of the second known reachability finding
+	isolatedByFlush map[uint32]bool
 }
 
 func (s *vHnswSys) Reset() {
@@ -93,6 +96,7 @@ func (s *vHnswSys) Reset() {
 	s.idx = idx
 	s.m = newVecModel()
 	s.nAdd, s.nRem, s.nFl, s.nLvl, s.resident, s.maxRes, s.maxEver, s.nReadd = 0, 0, 0, 0, 0, 0, 0, 0
+	s.isolatedByFlush = map[uint32]bool{}
 	documentFilterPool.Reset()
 	minHeapPool.Reset()
 	maxHeapPool.Reset()
@@ -246,8 +250,19 @@ func (s *vHnswSys) Apply(op vOp, hist []vOp, check bool) {
 	case "Flush":
 		s.nFl++
 		cands := s.flushCandidates()
+		hadEdges := map[uint32]bool{}
+		for id, n := range s.idx.nodes {
+			if len(n.Edges) > 0 && len(n.Edges[0]) > 0 && !s.idx.deletedNodes.Contains(id) {
+				hadEdges[id] = true
+			}
+		}
 		if err := s.idx.Flush(); err != nil && check {
 			s.c.Violation("flush-error", "", s.cfgS, h(), err.Error())
+		}
+		for id := range hadEdges {
+			if n := s.idx.nodes[id]; n != nil && len(n.Edges) > 0 && len(n.Edges[0]) == 0 {
+				s.isolatedByFlush[id] = true
+			}
 		}
 		if len(cands) > 0 {
 			legal := false
@@ -323,6 +338,9 @@ func (s *vHnswSys) why(id uint32, reach map[uint32]bool) string {
 		return "no-list-ever-overflowed"
 	}
 	if len(n.Edges) == 0 || len(n.Edges[0]) == 0 {
+		if s.isolatedByFlush[id] {
+			return "isolated-by-flush:all-its-neighbours-were-physically-deleted"
+		}
 		return "node-has-no-out-edges"
 	}
 	if s.nFl > 0 {
@@ -382,6 +400,117 @@ func vC12Sweep(c *vCtx, metric DistanceKind, m int) {
 	}
 	c.Sample(fmt.Sprintf("M=%d ef=%d: n structured vectors with levels 0/1/2, every fourth removed (incl. the entry point), flush, one more add; every n in 1..%d", m, 2*m+6, maxN))
 	c.Bound = fmt.Sprintf("sweep sizes 1..%d", maxN)
+}
+
+// vC12Adversarial: LARGE graphs (hundreds to thousands of vectors, levels 0..3) under
+// adversarial removals. n structured vectors are inserted; then, step after step, the
+// target of the next removal is chosen from the private state: the current entry point,
+// the highest-level live vertex, the live vertex with the largest layer-0 in-degree (a
+// hub), the most recently inserted live vertex, the live vertex nearest to the probe
+// query - in rotation; every 5th step a Flush (forcing, in rotation, another legal
+// re-elected entry point), every 11th step a new vector. After every step (every 10th for
+// n > 400) the whole C12 oracle runs: non-emptiness with efSearch 1, 2 and the default,
+// results live, reachability / graph invariants (the known pruning finding keeps its
+// witness). Ends when two live vectors are left.
+func vC12Adversarial(c *vCtx, metric DistanceKind, m, n int) {
+	cfg := vHnswCfg{Metric: metric, Dim: 3, M: m, Ef: 2*m + 6, MaxN: 2 * n, MaxRem: 2 * n, MaxFl: n, MaxLvl: 2 * n, Vals: 9}
+	s := &vHnswSys{c: c, cfg: cfg, cfgS: cfg.String() + fmt.Sprintf(" adversarial n=%d", n), vals: vStructuredVecs(3, 2*n+2)}
+	probe := []float32{0.5, 0.5, 0.5}
+	s.queries = [][]float32{s.vals[0], s.vals[n/2], probe, {-40, 3, 1}}
+	s.Reset()
+	var hist []vOp
+	ap := func(op vOp, check bool) {
+		s.Apply(op, hist, check)
+		hist = append(hist, op)
+		c.Transitions++
+	}
+	lvlOf := func(i int) int {
+		l := 0
+		for x := i + 1; x%4 == 0 && l < 3; x /= 4 {
+			l++
+		}
+		return l
+	}
+	next := 0
+	for ; next < n; next++ {
+		ap(vOp{K: "Add", A: next + 1, B: next, C: lvlOf(next)}, next == n-1)
+	}
+	every := 1
+	if n > 400 {
+		every = 10
+	}
+	step := 0
+	for len(s.m.live) > 2 {
+		if c.Expired() {
+			c.Bound = fmt.Sprintf("adversarial n=%d: %d removals (deadline)", n, step)
+			return
+		}
+		var target uint32
+		found := false
+		live := func(id uint32) bool { _, ok := s.m.live[id]; return ok }
+		switch step % 5 {
+		case 0:
+			if live(s.idx.entryPoint) {
+				target, found = s.idx.entryPoint, true
+			}
+		case 1:
+			best := -1
+			for id, nd := range s.idx.nodes {
+				if live(id) && (nd.Level > best || (nd.Level == best && id < target)) {
+					best, target, found = nd.Level, id, true
+				}
+			}
+		case 2:
+			indeg := map[uint32]int{}
+			for _, nd := range s.idx.nodes {
+				if len(nd.Edges) > 0 {
+					for _, nb := range nd.Edges[0] {
+						indeg[nb]++
+					}
+				}
+			}
+			best := -1
+			for id, d := range indeg {
+				if live(id) && (d > best || (d == best && id < target)) {
+					best, target, found = d, id, true
+				}
+			}
+		case 3:
+			for id := range s.m.live {
+				if !found || id > target {
+					target, found = id, true
+				}
+			}
+		case 4:
+			bd := 0.0
+			for id, v := range s.m.live {
+				if d := vRefDist(metric, probe, v); !found || d < bd || (d == bd && id < target) {
+					bd, target, found = d, id, true
+				}
+			}
+		}
+		if !found {
+			for id := range s.m.live {
+				if !found || id < target {
+					target, found = id, true
+				}
+			}
+		}
+		step++
+		check := step%every == 0
+		ap(vOp{K: "Remove", A: int(target)}, check)
+		if step%5 == 0 && s.idx.deletedNodes.GetCardinality() > 0 {
+			ap(vOp{K: "Flush", C: (step / 5) % 3}, true)
+		}
+		if step%11 == 0 {
+			ap(vOp{K: "Add", A: next + 1, B: next, C: lvlOf(next)}, check)
+			next++
+		}
+	}
+	ap(vOp{K: "Flush"}, true)
+	c.Traces++
+	c.NewState(s.cfgS)
+	c.Bound = fmt.Sprintf("adversarial n=%d: %d removals, down to two live vectors", n, step)
 }
 
 // emptyCause labels an empty answer: whether any live vertex is reachable at all, and if
@@ -690,6 +819,15 @@ func init() {
 				ecfg := ecfg
 				sh = append(sh, vShard{Name: "endurance/" + strings.ReplaceAll(ecfg.String(), " ", ","), Run: func(c *vCtx) { vKindEndurance(c, ecfg, 70000, nil) }})
 			}
+			adv := [][2]int{{4, 300}, {16, 1030}, {2, 120}}
+			if tier == "thorough" {
+				adv = append(adv, [2]int{8, 4100}, [2]int{32, 2000})
+			}
+			for i, a := range adv {
+				a := a
+				metric := []DistanceKind{Euclidean, Cosine, L2Squared}[i%3]
+				sh = append(sh, vShard{Name: fmt.Sprintf("adversarial/%s/M%d/n%d", metric, a[0], a[1]), Run: func(c *vCtx) { vC12Adversarial(c, metric, a[0], a[1]) }})
+			}
 			for _, m := range []int{2, 3, 4, 8, 16} {
 				m := m
 				maxN := 3*m + 4
@@ -705,6 +843,14 @@ func init() {
 				var n int
 				fmt.Sscanf(v.Config[i:], " endurance n=%d", &n)
 				vKindEndurance(c, vParseVecCfg(v.Config[:i]), n, nil)
+				_, ok := c.viol[v.Sig()]
+				return ok
+			}
+			if i := strings.Index(v.Config, " adversarial n="); i >= 0 {
+				var n int
+				fmt.Sscanf(v.Config[i:], " adversarial n=%d", &n)
+				cfg := vParseHnswCfg(v.Config)
+				vC12Adversarial(c, cfg.Metric, cfg.M, n)
 				_, ok := c.viol[v.Sig()]
 				return ok
 			}
